@@ -14,7 +14,7 @@ func init() { RegisterExtra("C08", c08AcceptIsLimiterAnswer) }
 // limiter's own answer. Every value stored into RateLimitAcquireResult.Accept in DoAcquire
 // (and the helpers its body is spread over) is the constant false, the result of
 // GlobalFlowControl.TryAcquireN, or the constant true on the edge where the accept result of
-// GlobalFlowControl.SetState is true. A shortcut that answers Accept without consulting the
+// GlobalFlowControl.SetState (or the result of TryAcquireN) is true. A shortcut that answers Accept without consulting the
 // limiter (e.g. for a zero report) skips the accounting: the report that lowers an
 // instance's count to zero is never applied and the room is never given back.
 func c08AcceptIsLimiterAnswer(c *eng.Ctx) {
@@ -44,7 +44,7 @@ func c08AcceptIsLimiterAnswer(c *eng.Ctx) {
 			case eng.IsBoolConst(st.Val, false):
 				ok = true
 			case eng.IsBoolConst(st.Val, true):
-				ok = eng.GuardedByBool(st, func(v ssa.Value) bool { return isLimiterCall(v, "SetState", 0) }, true)
+				ok = eng.GuardedByBool(st, func(v ssa.Value) bool { return isLimiterCall(v, "SetState", 0) || isLimiterCall(v, "TryAcquireN", -1) }, true)
 			default:
 				// a computed value: every origin is a TryAcquireN result, a SetState accept result or false
 				ls := sl.Leaves(st.Val, func(v ssa.Value) bool {
